@@ -378,6 +378,8 @@ type Config struct {
 	// Extra coverage keys computed by the property from merged stats.
 	Extra func(m *Merged) map[string]interface{}
 	Env   []string
+	// Race: workers are race-detector builds; their reports are collected.
+	Race bool
 }
 
 // Merged is the aggregate of all workers.
@@ -468,6 +470,9 @@ func Drive(cfg Config) int {
 	}
 	wg.Wait()
 	_ = infraFail
+	if cfg.Race {
+		parseRaceLogs(cfg, outDir, merged)
+	}
 	return finish(cfg, merged, time.Since(start))
 }
 
@@ -485,6 +490,9 @@ func runWorker(cfg Config, exe, outDir string, of int, ws *workerState, merged *
 	cmd.Stdout = lf
 	cmd.Stderr = lf
 	cmd.Env = append(os.Environ(), cfg.Env...)
+	if cfg.Race {
+		cmd.Env = append(cmd.Env, "GORACE=halt_on_error=0 log_path="+filepath.Join(outDir, "race"))
+	}
 	if err := cmd.Start(); err != nil {
 		mu.Lock()
 		merged.Crashes = append(merged.Crashes, "cannot start worker: "+err.Error())
@@ -637,6 +645,81 @@ func tailFile(path string, n int) string {
 		s = s[len(s)-n:]
 	}
 	return s
+}
+
+// parseRaceLogs turns the race detector's reports into violations.
+func parseRaceLogs(cfg Config, dir string, m *Merged) {
+	files, _ := filepath.Glob(filepath.Join(dir, "race.*"))
+	nReports := 0
+	for _, f := range files {
+		b, err := os.ReadFile(f)
+		if err != nil {
+			continue
+		}
+		blocks := strings.Split(string(b), "==================")
+		for _, blk := range blocks {
+			if !strings.Contains(blk, "WARNING: DATA RACE") {
+				continue
+			}
+			nReports++
+			sig, what := raceSignature(blk)
+			if _, dup := m.Viols[sig]; !dup {
+				m.Viols[sig] = &Witness{Property: cfg.Property, Sig: sig, What: what, Detail: blk, Seed: cfg.Seed}
+			}
+			m.ViolN[sig]++
+		}
+	}
+	m.Counters["race_reports"] += int64(nReports)
+}
+
+var repoFrameRe = regexp.MustCompile(`^\s*(github\.com/hashicorp/hcl-lang/[^\s(]+(?:\([^)]*\))?[^\s(]*)\(`)
+
+func raceSignature(blk string) (string, string) {
+	// split into the two access stacks
+	lines := strings.Split(blk, "\n")
+	var stacks [][]string
+	var cur []string
+	inStack := false
+	for _, l := range lines {
+		t := strings.TrimSpace(l)
+		if strings.HasPrefix(t, "Write at") || strings.HasPrefix(t, "Read at") || strings.HasPrefix(t, "Previous write at") || strings.HasPrefix(t, "Previous read at") {
+			if cur != nil {
+				stacks = append(stacks, cur)
+			}
+			cur = []string{t}
+			inStack = true
+			continue
+		}
+		if strings.HasPrefix(t, "Goroutine ") {
+			if cur != nil {
+				stacks = append(stacks, cur)
+				cur = nil
+			}
+			inStack = false
+		}
+		if inStack && strings.HasPrefix(t, "github.com/hashicorp/hcl-lang/") {
+			fn := t
+			if i := strings.LastIndex(fn, "("); i > 0 {
+				fn = fn[:i]
+			}
+			cur = append(cur, strings.TrimPrefix(fn, "github.com/hashicorp/hcl-lang/"))
+		}
+	}
+	if cur != nil {
+		stacks = append(stacks, cur)
+	}
+	var inner, outer []string
+	for _, st := range stacks {
+		if len(st) > 1 {
+			inner = append(inner, st[1])
+			outer = append(outer, st[len(st)-1])
+		} else {
+			inner = append(inner, "(outside hcl-lang)")
+			outer = append(outer, "(outside hcl-lang)")
+		}
+	}
+	sort.Strings(inner)
+	return "RACE " + strings.Join(inner, " <-> "), "data race reported by the Go race detector; outermost hcl-lang entry points: " + strings.Join(outer, " / ")
 }
 
 func finish(cfg Config, m *Merged, wall time.Duration) int {
